@@ -1,5 +1,6 @@
 import LinOp.C02.Proofs4
 import LinOp.C02.ProofsBatch3
+import LinOp.C02.ProofsBProg
 import LinOp.C02.ProofsBlock
 import LinOp.Generated.C02Table
 /-!
@@ -258,6 +259,43 @@ example : ∃ r : BOp Int, mkMatmul (.dense [3, 2] 2 2 fun idx i j => ((idx.sum 
     r.uniform [3, 2] = true ∧ (unsqueezeBatch 1 r).tree = "Matmul(Dense[3,1,2],Diag[3,1,2])" :=
   ⟨.matmul (.dense [3, 2] 2 2 fun idx i j => ((idx.sum + i + j : Nat) : Int))
       (expandBatch [3, 2] (.diag [2] 2 fun idx i => ((idx.sum + i : Nat) : Int))), by rfl, by decide, by decide⟩
+/-- **All programs of the batched layer refine the dense torch computation** (`beval_refines`): for EVERY program `p` built from
+batch-uniform library objects (11 classes, any nesting), any chain of batch rewrites (`_expand_batch` / `expand`, `_permute_batch`,
+`_unsqueeze_batch`, `_sum_batch`, `_prod_batch`) and the broadcasting constructors `SumLinearOperator(p, q)` /
+`MatmulLinearOperator(p, q)` (operands of different batch ranks), nested in any order and to any depth: if the model evaluator
+(`beval`: the per-class overrides of `Batch.lean`, step by step) returns an operator `r`, then the dense specification `bspec p`
+(torch's `expand` / `permute` / `unsqueeze` / `sum` / `prod` / broadcasting `+` and `@` on dense batched tensors) is defined, `r` is
+batch-uniform with the specification's batch and matrix shape, and `r`'s matrix at every valid batch index is the specification's.
+Induction over programs; the composition step rests on the range-preservation lemmas of torch's index maps (`bcast_inRange`,
+`permIdx_inRange`, `eraseIdx_inRange`, `insertIdx_inRange`).
+Named `_partial` because the menu's full statement also ranges over `repeat` / BatchRepeat, `squeeze` (a `__getitem__`, C03), the
+base-class `_sum_batch` (SumBatchLinearOperator) and `_prod_batch`, and because `beval` re-checks `expOk` (each operand shape
+expands to the broadcast shape) instead of deriving it from `bshapes … = some S` (a lemma about `torch.broadcast_shapes` that is
+not proved; the correspondence cells `C02/batchm/prog/*` show the check never rejects a program the library accepts). -/
+theorem beval_refines_partial (p : BProg α) (r : BOp α) (h : beval p = .ok r) :
+    ∃ x, bspec p = some x ∧ r.uniform x.bs = true ∧ r.bshape = x.bs ∧ r.rows = x.rows ∧ r.cols = x.cols ∧
+      ∀ idx, inRange x.bs idx = true → ∀ i j, r.denote idx i j = x.v idx i j := beval_refines_aux p r h
+
+/-- the hypothesis of `beval_refines_partial` is satisfiable by a non-trivial program: `sum(0)` of the transposed-batch
+`(Diag[2] unsqueezed to [1,2]) @ Dense[3,2]`, plus an expanded Toeplitz. -/
+example : ∃ r : BOp Int, beval (.add
+    (.rw (.permute [1, 0]) (.matmul (.rw (.unsqueeze 0) (.leaf (.diag [2] 2 fun idx i => ((idx.getD 0 0 + i : Nat) : Int))))
+      (.leaf (.dense [3, 2] 2 2 fun idx i j => ((idx.getD 0 0 + 2 * idx.getD 1 0 + i * j : Nat) : Int)))))
+    (.rw (.expand [2, 3]) (.leaf (.toep [3] 2 fun idx k => ((idx.getD 0 0 + k : Nat) : Int))))) = .ok r :=
+  ⟨_, rfl⟩
+
+/-- **torch's index maps preserve validity** (what lets rewrites compose): a valid index of the rewritten shape is mapped to a
+valid index of the old shape by `expand` / broadcasting (`bcast`), `permute` (`permIdx`, `dims` any list containing every batch dim),
+`unsqueeze` (`eraseIdx`) and by every summand of `sum` / `prod` (`insertIdx`). -/
+theorem index_maps_preserve_range (S : Shape) (idx : BIdx) :
+    (∀ S', expOk S S' = true → inRange S' idx = true → inRange S (bcast S idx) = true) ∧
+    (∀ dims : List Nat, dims.length = S.length → (∀ j, j < S.length → j ∈ dims) → inRange (permShape dims S) idx = true →
+      inRange S (permIdx dims idx) = true) ∧
+    (∀ d, d ≤ S.length → inRange (S.insertIdx d 1) idx = true → inRange S (idx.eraseIdx d) = true) ∧
+    (∀ d k, d < S.length → k < S.getD d 0 → inRange (S.eraseIdx d) idx = true → inRange S (idx.insertIdx d k) = true) :=
+  ⟨fun S' h1 h2 => bcast_inRange S S' idx h1 h2, fun dims h1 h2 h3 => permIdx_inRange dims S idx h1 h2 h3,
+   fun d h1 h2 => eraseIdx_inRange d S idx h1 h2, fun d k h1 h2 h3 => insertIdx_inRange d S idx k h1 h2 h3⟩
+
 end batched
 
 /-! ### cat / cat_rows / add_low_rank (LinOp/C02/Block.lean) -/
